@@ -70,6 +70,8 @@ fn objective(p: &Prob, v: &Array1<f64>) -> f64 {
         "lin" => v.iter().zip(&p.c).map(|(x, c)| x * c).sum(),
         "ras" => v.iter().map(|x| x * x - 10.0 * (2.0 * std::f64::consts::PI * x).cos() + 10.0).sum(),
         "negsphere" => -v.iter().map(|x| x * x).sum::<f64>(),
+        // piecewise constant: whole regions of the box have bit-identical fitness (exact ties between candidates)
+        "plateau" => v.iter().map(|x| x.floor() * x.floor()).sum(),
         o => panic!("unknown objective {o}"),
     }
 }
